@@ -627,8 +627,9 @@ fn run_node_case(case: &[String]) -> String {
             let mut sl: Vec<u32> = n.slots().iter().map(|s| value_of_slot(*s)).collect(); sl.sort();
             let chk = catch_unwind(AssertUnwindSafe(|| n.check())).is_ok();
             let rt = L_roundtrip(&n);
-            format!("shape=[{}] bij=[{}] shape2_same={} back=[{}] slots=[{}] all=[{}] public=[{}] private=[{}] check={} roundtrip={}", node_tokens(&sh), show_map(&bij), sh2 == sh, node_tokens(&back),
-                sl.iter().map(|x| x.to_string()).collect::<Vec<_>>().join(","), vs(n.all_slot_occurrences()), vs(n.public_slot_occurrences()), vs(n.private_slot_occurrences()), chk, rt)
+            let rp = n.refresh_private();
+            format!("shape=[{}] bij=[{}] shape2_same={} back=[{}] slots=[{}] all=[{}] public=[{}] private=[{}] check={} roundtrip={} refreshed=[{}]", node_tokens(&sh), show_map(&bij), sh2 == sh, node_tokens(&back),
+                sl.iter().map(|x| x.to_string()).collect::<Vec<_>>().join(","), vs(n.all_slot_occurrences()), vs(n.public_slot_occurrences()), vs(n.private_slot_occurrences()), chk, rt, node_tokens(&rp))
         }));
         out.push(jstr(&match r { Ok(s) => s, Err(_) => "panic".to_string() }));
     }
